@@ -53,10 +53,10 @@ type vfC12Target struct {
 	varints func(w *vfC12World, seed []byte) []int // offsets of length varints in a valid seed
 	fields  [][2]int                               // {offset, width} of little-endian integer header fields of the format
 	cidx    bool                                   // the input is a compact index file (header with key/value metadata)
-	name  string
-	seeds func(w *vfC12World) [][]byte
-	run   func(w *vfC12World, data []byte) (deep bool)
-	cbor  bool
+	name    string
+	seeds   func(w *vfC12World) [][]byte
+	run     func(w *vfC12World, data []byte) (deep bool)
+	cbor    bool
 }
 
 type vfC12World struct {
